@@ -20,6 +20,12 @@
 //!  (e) counted only, never judged (`overflow-error-for-body-within-limit`): an overflow error although the decoded body is within the limit and no
 //!      `Content-Length` above the limit was declared ("limit" is documented as the maximum
 //!      *accepted* size).
+//!  (f) `declared-length-dependent`: "whether or not a Content-Length was declared" — for the same
+//!      extractor, limit, coding, body and chunking the run without `Content-Length` and the run
+//!      declaring the TRUE wire length end in the same outcome class (and value).  Not compared
+//!      when the true wire length is itself above the limit (early rejection tolerated).  The grid
+//!      includes limits configured ABOVE each extractor's built-in default with bodies between
+//!      the default and the limit, where a stale default would bite.
 //! Tolerated: early rejection from a declared `Content-Length` above the limit even if the real
 //! body is small; which overflow variant is used; parse errors of deliberately unparsable bodies.
 
@@ -1586,7 +1592,7 @@ fn judge(case: &Case, b: &Built, res: Result<(Out, Stats), String>, rep: &mut Re
 }
 
 /// One body under several chunkings: per-case clauses plus the metamorphic comparison (c).
-fn run_group(base: &Case, chunkings: &[Chunking], rep: &mut Reporter) {
+fn run_group(base: &Case, chunkings: &[Chunking], rep: &mut Reporter) -> Vec<(Case, bool, Out)> {
     let mut brng = Rng::derive(base.seed, 0xC12B, 0);
     let mut outs: Vec<(Case, bool, Out)> = vec![];
     let plain_expect;
@@ -1649,6 +1655,106 @@ fn run_group(base: &Case, chunkings: &[Chunking], rep: &mut Reporter) {
             }
         }
     }
+    outs
+}
+
+/// One body under several `Content-Length` variants (each under several chunkings).  On top of the
+/// per-group clauses this is where clause (f) `declared-length-dependent` is judged: "whether or not
+/// a Content-Length was declared" — the run without the header and the run declaring the true wire
+/// length must end the same way (same chunking, same Pending plan, same everything else).  A true
+/// length that is itself above the limit (a compressed body whose wire form is larger than the
+/// limit while its content is not) may be rejected early: tolerated as before.
+fn run_body(base: &Case, cls: &[Cl], chunkings: &[Chunking], rep: &mut Reporter) {
+    let mut by_cl: Vec<(Cl, Vec<(Case, bool, Out)>)> = vec![];
+    for &cl in cls {
+        let mut b = base.clone();
+        b.cl = cl;
+        by_cl.push((cl, run_group(&b, chunkings, rep)));
+    }
+    let absent = by_cl.iter().find(|x| x.0 == Cl::Absent);
+    let truth = by_cl.iter().find(|x| x.0 == Cl::True);
+    let (Some(absent), Some(truth)) = (absent, truth) else { return };
+    for (ca, _, oa) in &absent.1 {
+        let Some((ct, over_t, ot)) = truth.1.iter().find(|x| x.0.chunking == ca.chunking) else { continue };
+        if *over_t {
+            rep.count("true-length-above-limit-not-compared(tolerated)", 1);
+            continue;
+        }
+        rep.count("declared-vs-undeclared-pairs-compared", 1);
+        let same = match (oa, ot) {
+            (Out::Ok(a), Out::Ok(b)) => a == b,
+            (a, b) => a.class() == b.class(),
+        };
+        if !same {
+            rep.violation(
+                "declared-length-dependent",
+                &format!(
+                    "{}/{}/{}/len{}/{}-without-vs-{}-with-true-length",
+                    base.ext.name(),
+                    base.coding.name(),
+                    ca.chunking.name(),
+                    lenrel(base.len, base.limit),
+                    oa.class(),
+                    ot.class()
+                ),
+                &format!(
+                    "same extractor ({}), limit {}, coding {}, body (decoded {} bytes) and chunking {}: without Content-Length -> {}; with the true Content-Length -> {}",
+                    base.ext.name(),
+                    base.limit,
+                    base.coding.name(),
+                    base.len,
+                    ca.chunking.name(),
+                    oa.short(),
+                    ot.short()
+                ),
+                json!({"pair": ct.to_json()}),
+            );
+        }
+    }
+}
+
+/// The limit an extractor falls back to when nothing is configured — and which its future's
+/// constructor pre-applies before the configured limit replaces it.
+fn builtin_default(ext: Ext) -> Option<usize> {
+    match ext {
+        Ext::Bytes | Ext::Str => Some(262_144),
+        Ext::Json => Some(2_097_152),
+        Ext::Form => Some(16_384),
+        Ext::MpMemory => Some(2_097_152),
+        _ => None,
+    }
+}
+
+/// Limits configured ABOVE the built-in default, with body lengths between the default and the
+/// configured limit: a stale default shows up exactly there.
+fn above_default_grid(ext: Ext, thorough: bool) -> Vec<(usize, Vec<usize>)> {
+    let limits: Vec<usize> = match ext {
+        Ext::Bytes | Ext::Str => vec![300_000, 1 << 20],
+        // 16 KiB is the documented default, 32 KiB the one in `UrlEncoded::new`
+        Ext::Form => vec![20_000, 40_000],
+        Ext::Json => vec![2_500_000],
+        Ext::MpMemory if thorough => vec![2_500_000],
+        _ => vec![],
+    };
+    let d = builtin_default(ext).unwrap_or(0);
+    limits
+        .into_iter()
+        .map(|l| {
+            let mut lens = vec![d + 1, l, l + 1];
+            if thorough || ext == Ext::Form {
+                lens.push((d + l) / 2);
+            }
+            if ext == Ext::Form {
+                lens.push(32_769.min(l));
+            }
+            if ext == Ext::Json && !thorough {
+                lens = vec![d + 1, l + 1];
+            }
+            lens.sort_unstable();
+            lens.dedup();
+            (l, lens)
+        })
+        .collect()
 }
 
 fn chunkings_for(ext: Ext, coding: Coding) -> Vec<Chunking> {
@@ -1690,12 +1796,18 @@ pub fn run(ctx: &Ctx, rep: &mut Reporter) {
                     .as_array()
                     .map(|a| a.iter().filter_map(|x| x.as_str().and_then(Chunking::parse)).collect())
                     .unwrap_or_default();
-                run_group(&base, &chs, rep);
+                let _ = run_group(&base, &chs, rep);
                 rep.sig("replay-group");
                 return;
             }
+        } else if let Some(p) = r.get("pair") {
+            if let Some(case) = Case::from_json(p) {
+                run_body(&case, &[Cl::Absent, Cl::True], &[case.chunking], rep);
+                rep.sig("replay-pair");
+                return;
+            }
         } else if let Some(case) = Case::from_json(r) {
-            run_group(&case, &[case.chunking], rep);
+            let _ = run_group(&case, &[case.chunking], rep);
             rep.sig("replay");
             return;
         }
@@ -1723,9 +1835,49 @@ pub fn run(ctx: &Ctx, rep: &mut Reporter) {
                     continue;
                 }
                 for coding in codings_for(ext) {
-                    for &cl in Cl::ALL.iter() {
-                        // multipart and to_bytes_limited never look at Content-Length: two variants
-                        if !ext.reads_cl() && matches!(cl, Cl::Low | Cl::High) {
+                    // all Content-Length variants of one body run on the same shard (clause f)
+                    gidx += 1;
+                    if !ctx.mine(gidx) {
+                        continue;
+                    }
+                    if ctx.out_of_time() {
+                        complete = false;
+                        break 'grid;
+                    }
+                    let base = Case {
+                        ext,
+                        limit,
+                        len,
+                        coding,
+                        chunking: Chunking::One,
+                        cl: Cl::Absent,
+                        pend: gidx % 3 == 0,
+                        empties: false,
+                        seed: Rng::derive(ctx.seed, 0xA12, gidx).next(),
+                    };
+                    // multipart and to_bytes_limited never look at Content-Length: two variants
+                    let cls: &[Cl] = if ext.reads_cl() { &Cl::ALL } else { &[Cl::Absent, Cl::True] };
+                    let chs = chunkings_for(ext, coding);
+                    *classes.entry(ext.name().to_string()).or_insert(0) += (chs.len() * cls.len()) as u64;
+                    run_body(&base, cls, &chs, rep);
+                }
+            }
+        }
+    }
+    // ---- phase A2: limits above the extractor's built-in default
+    let mut complete2 = true;
+    if !small && !asan {
+        'grid2: for &ext in Ext::ALL.iter() {
+            for (limit, lens) in above_default_grid(ext, ctx.thorough()) {
+                for len in lens {
+                    for coding in codings_for(ext) {
+                        // quick: the 2.5 MB JSON bodies only uncompressed, the Bytes/String bodies
+                        // only identity/gzip/zstd; everything in thorough
+                        if !ctx.thorough()
+                            && ((ext == Ext::Json && coding != Coding::Identity)
+                                || (matches!(ext, Ext::Bytes | Ext::Str)
+                                    && !matches!(coding, Coding::Identity | Coding::Gzip | Coding::Zstd)))
+                        {
                             continue;
                         }
                         gidx += 1;
@@ -1733,8 +1885,8 @@ pub fn run(ctx: &Ctx, rep: &mut Reporter) {
                             continue;
                         }
                         if ctx.out_of_time() {
-                            complete = false;
-                            break 'grid;
+                            complete2 = false;
+                            break 'grid2;
                         }
                         let base = Case {
                             ext,
@@ -1742,18 +1894,27 @@ pub fn run(ctx: &Ctx, rep: &mut Reporter) {
                             len,
                             coding,
                             chunking: Chunking::One,
-                            cl,
+                            cl: Cl::Absent,
                             pend: gidx % 3 == 0,
                             empties: false,
-                            seed: Rng::derive(ctx.seed, 0xA12, gidx).next(),
+                            seed: Rng::derive(ctx.seed, 0xA13, gidx).next(),
                         };
-                        let chs = chunkings_for(ext, coding);
-                        *classes.entry(ext.name().to_string()).or_insert(0) += chs.len() as u64;
-                        run_group(&base, &chs, rep);
+                        let cls: &[Cl] = if ext.reads_cl() { &Cl::ALL } else { &[Cl::Absent, Cl::True] };
+                        let mut chs = chunkings_for(ext, coding);
+                        if limit > (1 << 20) || (!ctx.thorough() && limit > 100_000) {
+                            // megabyte bodies / quick tier: a representative subset of the styles
+                            chs.retain(|c| matches!(c, Chunking::One | Chunking::Random | Chunking::StraddleB | Chunking::WireRandom));
+                        }
+                        rep.count(&format!("above-default-grid-cases:{}", ext.name()), (chs.len() * cls.len()) as u64);
+                        run_body(&base, cls, &chs, rep);
                     }
                 }
             }
         }
+        rep.exhaustive(
+            "above-default grid: Bytes/String limit{300000,1MiB}, Form limit{20000,40000}, Json limit 2.5MB (quick: reduced codings/chunkings), thorough also multipart memory 2.5MB × len{default+1, midway, L, L+1} × coding × content-length × chunking",
+            complete2,
+        );
     }
     if asan || small {
         rep.exhaustive("sanitizer-layer grid (same classes, limits up to 32 KiB)", complete);
@@ -1768,7 +1929,7 @@ pub fn run(ctx: &Ctx, rep: &mut Reporter) {
     }
 
     // ---- phase B: random cases around random limits
-    let n = if small { 20 } else { ctx.share(24_000, 900_000) };
+    let n = if small { 20 } else { ctx.share(16_000, 600_000) };
     for k in 0..n {
         if ctx.out_of_time() {
             break;
@@ -1799,6 +1960,14 @@ pub fn run(ctx: &Ctx, rep: &mut Reporter) {
             6 => rng.below(3 * limit + 16),
             _ => (limit * rng.range(2, 10) + rng.below(64)).min(1 << 20),
         };
+        // one case in thirty: a limit above the extractor's built-in default and a body in between
+        let (limit, len) = match builtin_default(ext) {
+            Some(d) if d < 300_000 && !small && !asan && rng.chance(1, 30) => {
+                let l = d + rng.range(1, d);
+                (l, rng.range(d + 1, l + 2))
+            }
+            _ => (limit, len),
+        };
         let codings = codings_for(ext);
         let coding = if rng.chance(1, 3) && !asan { codings[0] } else { *rng.pick(&codings) };
         let cl = if ext.reads_cl() { *rng.pick(&Cl::ALL) } else { *rng.pick(&[Cl::Absent, Cl::True]) };
@@ -1825,7 +1994,12 @@ pub fn run(ctx: &Ctx, rep: &mut Reporter) {
         if rng.chance(1, 3) {
             chs.remove(0);
         }
-        run_group(&base, &chs, rep);
+        // half of the cases: the same body with and without its true Content-Length (clause f)
+        if rng.chance(1, 2) {
+            run_body(&base, &[Cl::Absent, Cl::True], &chs[..2.min(chs.len())], rep);
+        } else {
+            let _ = run_group(&base, &chs, rep);
+        }
     }
     let _ = Chunking::wire_level;
 }
